@@ -13,8 +13,8 @@ Theorem C11_parse_depends_on_tokens : forall fparse crank a b,
 Proof. exact parse_depends_on_tokens. Qed.
 
 (* literal_exact: an accepted source contains no literal whose conversion failed — an
-   out-of-range integer or hexadecimal, an escape Go rejects, an overflowing float, a complex
-   literal strconv rejects are never replaced by another value ... *)
+   out-of-range integer or hexadecimal, an escape Go rejects, an overflowing float (also as a part
+   of a complex literal) are never replaced by another value ... *)
 Theorem C11_literal_exact : forall fparse crank src v t,
   parse_source fparse crank src = PValue v ->
   In t (lex src) -> is_lit (ttype_of t) = true ->
@@ -126,6 +126,18 @@ Proof. vm_compute. reflexivity. Qed.
 Example C11_ex_repeated_key_first_position_last_value :
   parse_source (fun _ => None) (default_crank []) (zs "['a': 1, 'b': 2, 'a': 3](Catalog)")
   = PValue (VMapping MCatalog [VRune 97; VRune 98] [VInt 64 3; VInt 64 2]).
+Proof. vm_compute. reflexivity. Qed.
+(* every sign combination of a complex literal has a value: real ± imaginary (fix 35);
+   4607182418800017408 = 1.0, 4611686018427387904 = 2.0, 13835058055282163712 = -2.0 *)
+Example C11_ex_complex_sign_combinations :
+  parse_source (fun t => if list_eqb Z.eqb t (zs "1.0") then Some 4607182418800017408
+                         else if list_eqb Z.eqb t (zs "2.0") then Some 4611686018427387904
+                         else if list_eqb Z.eqb t (zs "+2.0") then Some 4611686018427387904
+                         else if list_eqb Z.eqb t (zs "-2.0") then Some 13835058055282163712 else None)
+    (default_crank []) (zs "[(1.0+2.0i), (1.0-2.0i), (1.0++2.0i), (1.0+-2.0i), (1.0-+2.0i), (1.0--2.0i)](List)")
+  = PValue (VSeq KList [VComplex 128 4607182418800017408 4611686018427387904 0 0; VComplex 128 4607182418800017408 13835058055282163712 0 0;
+                        VComplex 128 4607182418800017408 4611686018427387904 0 0; VComplex 128 4607182418800017408 13835058055282163712 0 0;
+                        VComplex 128 4607182418800017408 13835058055282163712 0 0; VComplex 128 4607182418800017408 4611686018427387904 0 0]).
 Proof. vm_compute. reflexivity. Qed.
 Example C11_ex_float_through_oracle :
   parse_source (fun t => if list_eqb Z.eqb t (zs "1.5e+3") then Some 4654311885213007872 else None) (default_crank [])
